@@ -61,6 +61,38 @@ theorem C06_agrees_decimal (p s : Nat) (hs : 0 < s) :
   refine ⟨_, (C06_decimal_parse p s).2, by simp [pyOf, hdec], ?_⟩
   simp [agrees, hs]
 
+/-- **One entry per result column, by position**: whatever the column names are — repeated names from self joins, `a.*, b.*`, the
+    same alias twice — the description has exactly as many entries as DESCRIBE returned rows, with the same names in the same
+    order, and the i-th entry carries the i-th column's own type. -/
+theorem C06_rowtype_positional (rows : List (List Char × List Char)) (out : List (List Char × ColumnInfo))
+    (h : describeAsRowtype rows = some out) :
+    out.length = rows.length ∧ out.map (·.1) = rows.map (·.1) ∧
+    ∀ (i : Nat) (n t : List Char), rows[i]? = some (n, t) → ∃ ci, asColumnInfo t = some ci ∧ out[i]? = some (n, ci) := by
+  induction rows generalizing out with
+  | nil => simp only [describeAsRowtype, Option.some.injEq] at h; subst h; simp
+  | cons r rest ih =>
+    obtain ⟨n0, t0⟩ := r
+    simp only [describeAsRowtype] at h
+    cases hci : asColumnInfo t0 with
+    | none => simp [hci] at h
+    | some ci0 =>
+      cases hr : describeAsRowtype rest with
+      | none => simp [hci, hr] at h
+      | some out' =>
+        simp only [hci, hr, Option.some.injEq] at h
+        subst h
+        obtain ⟨h1, h2, h3⟩ := ih out' hr
+        refine ⟨by simp [h1], by simp [h2], fun i n t hi => ?_⟩
+        cases i with
+        | zero => simp only [List.getElem?_cons_zero, Option.some.injEq, Prod.mk.injEq] at hi; obtain ⟨rfl, rfl⟩ := hi; exact ⟨ci0, hci, rfl⟩
+        | succ j => simpa using h3 j n t (by simpa using hi)
+
+/-- witness: keyed by name, `select 1 as a, 'x' as a` is described by ONE entry, and it has the second column's type. -/
+theorem C06_by_name_loses_columns :
+    (describeAsRowtypeByName [("A".toList, "INTEGER".toList), ("A".toList, "VARCHAR".toList)]).map (fun o => o.map fun e => e.2.type) = some [.text] ∧
+    (describeAsRowtype [("A".toList, "INTEGER".toList), ("A".toList, "VARCHAR".toList)]).map (fun o => o.map fun e => e.2.type) = some [.fixed, .text] := by
+  decide
+
 /-- the full "types agree with values" statement over everything DuckDB can hand back in this model -/
 def C06_agrees_Full : Prop :=
   ∀ t ci py, asColumnInfo t = some ci → pyOf t = some py → agrees ci py = true
